@@ -129,5 +129,6 @@ pub fn c07(tier: Tier, _seed: u64) -> Prop {
         ],
         units,
         extra: no_extra(),
+        profiles: vec!["release"],
     }
 }
